@@ -154,6 +154,9 @@ type Blocks struct {
 	// Peers are block stores of connected peers: a block missing locally is
 	// fetched from them and then stored locally (as bitswap does).
 	Peers []*Blocks
+	// PeersFn, if set, replaces Peers: the block stores reachable right now
+	// (link state of a simulated network).
+	PeersFn func() []*Blocks
 }
 
 // Keys lists the hashes held locally (insertion order is not significant).
@@ -309,7 +312,11 @@ func (io *IO) Read(ctx context.Context, ipfs coreiface.CoreAPI, c cid.Cid) (form
 	obj, ok := io.B.objs[BlockKey(c)]
 	missing := io.B.Missing[BlockKey(c)]
 	peers := io.B.Peers
+	peersFn := io.B.PeersFn
 	io.B.mu.Unlock()
+	if peersFn != nil {
+		peers = peersFn()
+	}
 	if err := ctx.Err(); err != nil {
 		return nil, err
 	}
